@@ -24,6 +24,7 @@ func AllMonitors() []Monitor {
 		&MonC14{},
 		&MonC15{},
 		&MonC16{},
+		&MonC18{},
 	}
 }
 
@@ -187,7 +188,12 @@ func planC09(w *World, spec RunSpec) {
 	w.drawFaultMix("err-before", "lost-response", "crash", "compaction", "duplicate")
 	w.Cfg.Faults["drift"] = true
 	w.Cfg.Ndist = 100 + s.Intn(500, "ndist")
-	if s.Bool("family-od") {
+	if spec.Index%4 == 3 {
+		// Package -> ObjectDeployment -> revisions pause propagation
+		w.Cfg.Packages = true
+		w.Cfg.Faults["pull-error"] = !w.Cfg.FaultFree
+		w.Scenario = GenPKG(w, 5)
+	} else if s.Bool("family-od") {
 		w.Scenario = GenOD(w, ODProfile{MaxEdits: 6, Pause: true, Limits: true, NeverReady: s.Bool("never-ready"), Delegation: s.Bool("delegation")})
 	} else {
 		w.Scenario = GenOS(w, OSProfile{MaxSets: 3, Delegation: true, Lifecycle: true, LateCreate: true, Intruder: "granular", NoForge: true, Preexisting: 2})
@@ -218,7 +224,13 @@ func planC11(w *World, spec RunSpec) {
 	w.setupCommon(0)
 	w.drawFaultMix("err-before", "lost-response", "crash", "compaction", "duplicate")
 	w.Cfg.Ndist = 60 + s.Intn(300, "ndist")
-	w.Scenario = GenOS(w, OSProfile{MaxSets: 2, Delegation: true, Lifecycle: true, LateCreate: true, Violations: true})
+	if spec.Index%3 == 2 {
+		// ObjectTemplates: sources/targets outside the template's namespace
+		w.Cfg.Templates = true
+		w.Scenario = GenOT(w, 4)
+	} else {
+		w.Scenario = GenOS(w, OSProfile{MaxSets: 2, Delegation: true, Lifecycle: true, LateCreate: true, Violations: true})
+	}
 	w.StartProcesses()
 	w.Disturb(w.Cfg.Ndist)
 	w.finish()
@@ -237,3 +249,17 @@ func planPkgSmoke(w *World, spec RunSpec) {
 }
 
 func init() { Plans["PKG"] = planPkgSmoke; Plans["C16"] = planPkgSmoke }
+
+func planC18(w *World, spec RunSpec) {
+	s := w.Scn
+	w.setupCommon(0)
+	w.Cfg.Templates = true
+	w.drawFaultMix("err-before", "lost-response", "crash", "compaction", "duplicate", "informer-start")
+	w.Cfg.Ndist = 60 + s.Intn(300, "ndist")
+	w.Scenario = GenOT(w, 5)
+	w.StartProcesses()
+	w.Disturb(w.Cfg.Ndist)
+	w.finish()
+}
+
+func init() { Plans["C18"] = planC18 }
